@@ -159,3 +159,50 @@ class HistoryMethod(Contract):
 def units():
     from pyvc.verify import Unit
     return [Unit(HistoryMethod(m)) for m in ("_undo_pointer", "add_new_action", "undo", "redo")]
+
+
+class TracksUndoRedo(Contract):
+    """Tracks.undo / Tracks.redo: step the history and emit refresh exactly when a step was made."""
+
+    props = ("C02", "C20")
+    sym_attr = {"ActRef": _act_attr}
+
+    def __init__(self, method):
+        self.method = method
+        self.qualname = f"funtracks.data_model.tracks.Tracks.{method}"
+
+    def run(self, I, config):
+        from pyvc.tracksfactory import make_tracks
+        ctx = I.ctx
+        W = make_tracks(I, has_seg=False)
+        U, R = W.ah.fields["undo_stack"], W.ah.fields["redo_stack"]
+        tl = ctx.fresh_fun("TL", Int, St)
+        world = ctx.fresh("world", St)
+        ctx.ghost["world"] = world
+        for _, f in inv_h(U, R, tl, world):
+            ctx.assume(f)
+        nU0, nR0 = U.n, R.n
+        cur0 = nU0 - nR0
+        muts0 = ctx.ghost["muts"]
+        out = call_real(I, self.qualname, [W.tracks])
+        q = f"Tracks.{self.method}"
+        if out[0] != "return":
+            ctx.oblige(f"{q}/no-exception", False, props=self.props)
+            return out
+        res = out[1]
+        rb = res.e if isinstance(res, Sym) else z3.BoolVal(bool(res))
+        can = (cur0 > 0) if self.method == "undo" else (nR0 > 0)
+        step = -1 if self.method == "undo" else 1
+        em = ctx.ghost["emits"]
+        ctx.oblige(f"C02/{q}/ensures:returns-True-iff-there-is-a-state-to-step-to", rb == can, props=("C02",))
+        ctx.oblige(f"C02/{q}/ensures:world-steps-along-the-timeline",
+                   ctx.ghost["world"] == z3.If(can, tl(cur0 + step), world), props=("C02",))
+        ctx.oblige(f"C20/{q}/ensures:one-refresh-iff-stepped", can == z3.BoolVal(len(em) == 1 and len(em[0]) == 0)
+                   if len(em) in (0, 1) else z3.BoolVal(False), props=("C20",))
+        ctx.oblige(f"C02/{q}/ensures:no-direct-mutation-of-the-tracks", z3.BoolVal(ctx.ghost["muts"] == muts0), props=("C02", "C16"))
+        return out
+
+
+def tracks_units():
+    from pyvc.verify import Unit
+    return [Unit(TracksUndoRedo(m)) for m in ("undo", "redo")]
